@@ -65,13 +65,14 @@ package icstate
 //@   ensures [sum] r != nil && fresh(r) && big(r) == big(a.totalBond) + big(a.totalDelegation) + big(a.totalUnbond)
 //@   opt ghost:using_ver ghost(acct_ver)
 //@   opt ghost:using_val big(r)
+//@   opt ghost:using_of owner(a)
 //@ func (a accountData) Stake() (r)
 //@   arith int
 //@   pure
 //@   ensures [field] r == a.stake
 //@ func (a *accountData) GetVotingPower() (r)
 //@   arith int
-//@   modifies ghost(using_ver), ghost(using_val)
+//@   modifies ghost(using_ver), ghost(using_val), ghost(using_of)
 //@   requires a != nil && a.stake != nil && a.totalBond != nil && a.totalDelegation != nil && a.totalUnbond != nil && allocated(a.stake) && allocated(a.totalBond) && allocated(a.totalDelegation) && allocated(a.totalUnbond)
 //@   ensures [rest] r != nil && fresh(r) && big(r) == big(a.stake) - (big(a.totalBond) + big(a.totalDelegation) + big(a.totalUnbond))
 
@@ -105,6 +106,7 @@ package icstate
 //@ smt all (declare-ghost acct_ver Int)
 //@ smt all (declare-ghost using_ver Int)
 //@ smt all (declare-ghost using_val Int)
+//@ smt all (declare-ghost using_of Int)
 //@ func (s *State) GetAccountState(addr) (r)
 //@   trusted
 //@   modifies *
@@ -114,9 +116,11 @@ package icstate
 //@ func (s *State) GetPRepStatusByOwner(owner, createIfNotExist) (r)
 //@   trusted
 //@   modifies *
+//@ smt all (declare-ghost std_n Int)
 //@ func (s *State) SetTotalDelegation(value) (err)
 //@   trusted
 //@   modifies *
+//@   opt ghost:std_n ghost(std_n) + 1
 //@ func (s *State) SetTotalBond(value) (err)
 //@   trusted
 //@   modifies *
@@ -131,3 +135,40 @@ package icstate
 //@ func ScheduleTimerJob(t, info, address)
 //@   trusted
 //@   modifies *
+
+// restaking consumes unstake slots from the newest: the caller's amount is left alone (it is added
+// to the network total afterwards), and - from the revision with several slots on - the timer entry
+// of a height is given up only when no remaining slot still expires at that height (otherwise that
+// slot would never be paid out)
+//@ func (us *Unstakes) decreaseUnstake(v, expireHeight, revision) (tl, err)
+//@   arith int
+//@   nosafety
+//@   requires us != nil && v != nil && allocated(v) && unstakesOk(deref(Unstakes, us))
+//@   modifies *
+//@   ensures [amount_untouched] big(v) == old(big(v))
+//@   ensures [timer_kept_for_remaining_slots] err == nil && revision >= 9 ==> (forall j int, k int :: {tl[j], deref(Unstakes, us)[k]} 0 <= j && j < len(tl) && tl[j].Type == JobTypeRemove && 0 <= k && k < len(deref(Unstakes, us)) ==> deref(Unstakes, us)[k].Expire != tl[j].Height)
+//@   loop 0: invariant -1 <= i && i < uLen && remain != nil && fresh(remain) && big(v) == old(big(v)) && len(deref(Unstakes, us)) <= uLen && unstakesOk(deref(Unstakes, us))
+
+// a P-Rep that stops being active is taken out of the network's total delegation - whatever else
+// (replacing it as a main P-Rep) has to happen on the way
+//@ smt all (declare-ghost status_q Int)
+//@ func (ps *prepStatusData) Status() (r)
+//@   arith int
+//@   pure
+//@   requires ps != nil
+//@   ensures [field] r == ps.status
+//@   opt ghost:status_q r
+//@ func (ps *PRepStatusState) DisableAs(status) (g, err)
+//@   trusted
+//@   modifies *
+//@ func (s *State) replaceMainPRepByOwner(sc, owner) (err)
+//@   trusted
+//@   modifies *
+//@ func (s *State) DisablePRep(sc, owner, status) (err)
+//@   arith int
+//@   nosafety
+//@   modifies *
+//@   opt no-callee-pre
+//@   opt inline-none
+//@   requires s != nil
+//@   ensures [total_adjusted] err == nil && ghost(status_q) == Active && status != Active ==> ghost(std_n) == old(ghost(std_n)) + 1
